@@ -381,6 +381,73 @@ pub fn run(tier: &str, seed: u64) -> Report {
             report.fail("oracle", "dependencies-differ-from-source", format!("{}: graph has [{}], source declares [{}]", s, got, exp.join(";")), desc.clone());
           }
         }
+        // ---- oracle 6: static wins / first type attribute, recomputed from the import list ----
+        for m in g.modules() {
+          let declaration = matches!(m.media_type(), deno_graph::MediaType::Dts | deno_graph::MediaType::Dmts | deno_graph::MediaType::Dcts);
+          for (t, d) in m.dependencies() {
+            use deno_graph::ImportKind::*;
+            let code_imports: Vec<&deno_graph::Import> = d
+              .imports
+              .iter()
+              .filter(|i| matches!(i.kind, Es | EsSource | Require | JsxImportSource) && (!declaration || matches!(i.kind, JsxImportSource)))
+              .collect();
+            let expect_dynamic = !code_imports.is_empty() && code_imports.iter().all(|i| i.is_dynamic);
+            if d.is_dynamic != expect_dynamic {
+              report.fail(
+                "oracle",
+                "static-does-not-win",
+                format!("{} dependency {:?}: is_dynamic = {} but its code imports are {:?}", m.specifier(), t, d.is_dynamic, code_imports.iter().map(|i| (format!("{:?}", i.kind), i.is_dynamic)).collect::<Vec<_>>()),
+                desc.clone(),
+              );
+            }
+            let first_attr = d.imports.iter().find_map(|i| i.attributes.get("type").map(|s| s.to_string()));
+            if d.maybe_attribute_type != first_attr {
+              report.fail("oracle", "attribute-type-not-from-source", format!("{} dependency {:?}: recorded attribute {:?}, imports say {:?}", m.specifier(), t, d.maybe_attribute_type, first_attr), desc.clone());
+            }
+          }
+        }
+        // ---- oracle 7: a JSON file every importer of which asserts `type: "json"` is a JSON module --
+        {
+          let follow = |s: &ModuleSpecifier| -> ModuleSpecifier {
+            let mut cur = s.clone();
+            for _ in 0..32 {
+              match g.redirects.get(&cur) {
+                Some(n) => cur = n.clone(),
+                None => break,
+              }
+            }
+            cur
+          };
+          let mut importer_attrs: HashMap<ModuleSpecifier, Vec<Option<String>>> = HashMap::new();
+          for r in &roots {
+            importer_attrs.entry(follow(r)).or_default().push(Some("root".into()));
+          }
+          for m in g.modules() {
+            for d in m.dependencies().values() {
+              for r in [&d.maybe_code, &d.maybe_type] {
+                if let Some(t) = ok_spec(r) {
+                  importer_attrs.entry(follow(t)).or_default().push(d.maybe_attribute_type.clone());
+                }
+              }
+            }
+          }
+          for e in g.module_errors() {
+            if err_kind(e).0 != "unsupportedMedia" {
+              continue;
+            }
+            let s = e.specifier();
+            let Some(i) = w.spec_index(s) else { continue };
+            let is_json = matches!(&w.resp[i], Resp::Module { final_spec, headers: None, .. } if *final_spec == i) && ext_of(s) == "json";
+            if !is_json {
+              continue;
+            }
+            if let Some(attrs) = importer_attrs.get(s) {
+              if !attrs.is_empty() && attrs.iter().all(|a| a.as_deref() == Some("json")) {
+                report.fail("oracle", "asserted-json-module-became-error", format!("{} is only imported with type: \"json\" but is an unsupported-media-type error", s), desc.clone());
+              }
+            }
+          }
+        }
         let nslots = g.verif_slots().len();
         let nerr = g.module_errors().count();
         report.nontrivial.insert(format!("{:?}/s{}/r{}/e{}/{}{}", w.kind, nslots.min(12), g.redirects.len().min(6), nerr.min(4), w.opts.is_dynamic as u8, w.opts.skip_dynamic_deps as u8));
